@@ -1622,8 +1622,11 @@ class AsyncGraph:
 
         _verif.point("stop.after_flip")
         # Initiate stop (this unblocks the root's step, that is waiting for an action).
-        if len(self._synchronizer.action) > 0:
+        # The supervisor thread pops an action it has already received concurrently, so do not index after a length check.
+        try:
             self._synchronizer.action[-1].cancel()
+        except IndexError:
+            pass
 
         _verif.point("stop.after_cancel")
         # Wait for all nodes to stop
